@@ -1,6 +1,6 @@
 #!/venv/bin/python
 """Run all 20 quick checks against many refactored worktrees with one global worker pool.
-usage: eval_refactor_batch.py <worktree> [<worktree> ...] [--jobs 14]"""
+usage: eval_refactor_batch.py <worktree> [<worktree> ...] [--jobs=14] [--props=C17,C18]  (or PROPS=C17,C18 in the environment)"""
 import os, subprocess, sys, tempfile, time
 from concurrent.futures import ThreadPoolExecutor
 from pathlib import Path
@@ -8,7 +8,9 @@ VERIF = Path(__file__).resolve().parent.parent
 args = [a for a in sys.argv[1:] if not a.startswith("--")]
 jobs = int(next((a.split("=")[1] for a in sys.argv[1:] if a.startswith("--jobs=")), "14"))
 tmp = Path(tempfile.mkdtemp(prefix="curies-refbatch-"))
-tasks = [(Path(w).resolve(), f"C{i:02d}") for w in args for i in range(1, 21)]
+props = next((a.split("=")[1] for a in sys.argv[1:] if a.startswith("--props=")), os.environ.get("PROPS", "")).split(",")
+props = [p for p in props if p] or [f"C{i:02d}" for i in range(1, 21)]
+tasks = [(Path(w).resolve(), pid) for w in args for pid in props]
 for w in args:
     r = subprocess.run(["bash", str(VERIF / "tools" / "run_tests_in.sh"), str(Path(w).resolve())], capture_output=True, text=True)
     print(Path(w).name, "tests:", (r.stdout.strip().splitlines() or ["?"])[-1][:60], flush=True)
